@@ -291,6 +291,46 @@ def minsum_scale_invariance(ctx, vcfg):
             ctx.ensure(f"homogeneous.t={tv}", SP.all_close(lhs, rhs))
 
 
+@obligation("C10.variable_update_and_marginal", function=FBP + ":BeliefPropagationDecoder.compute_vc; " + FBP + ":BeliefPropagationDecoder.marginalize",
+            configs=lambda tier: codes.with_variants(_h_cfgs(tier), ["bp", "minsum"]), timeout_ms=60000, crosscheck=3)
+def variable_update_and_marginal(ctx, vcfg):
+    """the LINEAR half of every iteration, for ALL real messages and inputs - no bound on magnitudes (a clip on these messages would
+    make the min-sum decoder depend on the scale of its input): for every edge e = (v, c)
+        compute_vc(cv, s)[e] == s[v] - cv[e]            marginalize(cv, llr)[v] == llr[v] + sum_{e at v} cv[e]
+    for the sum-product decoder and for MinSumLDPCDecoder, which inherits both methods"""
+    cfg, which = codes.split_variant(vcfg)
+    dec = bp_decoder(cfg, 3, True) if which == "bp" else minsum_decoder(cfg, 3, 0.75, 0.0)
+    H = SP.int_matrix(codes.build(cfg).check_matrix)
+    E = tanner_edges(H)
+    n, ne = len(H[0]), len(E)
+    big = 60 if which == "minsum" else 4
+    cv = ctx.reals("cv", (1, ne), sampler=lambda r: max(-14.9, min(14.9, r.choice([r.gauss(0, 2), r.gauss(0, big), 0.0]))) if which == "bp" else r.choice([r.gauss(0, 2), r.gauss(0, big), 0.0]))
+    s = ctx.reals("s", (1, n), sampler=lambda r: max(-14.9, min(14.9, r.choice([r.gauss(0, 2), r.gauss(0, big)]))) if which == "bp" else r.choice([r.gauss(0, 2), r.gauss(0, big)]))
+    if which == "bp":
+        # the sum-product decoder is only specified inside its message-clipping range (a saturation of large messages would not
+        # change its result): |cv|, |s| <= 15; the min-sum variant is unbounded
+        for v in list(P(cv)[0]) + list(P(s)[0]):
+            ctx.assume(S.le(S.sabs(v), 15))
+    a = ctx.call(dec.compute_vc, cv, s)
+    ctx.ensure("compute_vc_returns", a.ok, note=repr(a.exc) if not a.ok else "")
+    if a.ok:
+        want = np.asarray([[S.sub(P(s)[0][v], P(cv)[0][j]) for j, (v, c) in enumerate(E)]], dtype=object)
+        ctx.ensure("vc_is_input_minus_incoming_message_on_every_edge", SP.shape_is(a.value, (1, ne)) and SP.all_close(P(a.value), want))
+        ctx.ensure("compute_vc_inputs_unmodified", a.unmodified)
+    b = ctx.call(dec.marginalize, cv, s)
+    ctx.ensure("marginalize_returns", b.ok, note=repr(b.exc) if not b.ok else "")
+    if b.ok:
+        want = np.empty((1, n), dtype=object)
+        for v in range(n):
+            acc = P(s)[0][v]
+            for j, (v2, c) in enumerate(E):
+                if v2 == v:
+                    acc = S.add(acc, P(cv)[0][j])
+            want[0, v] = acc
+        ctx.ensure("marginal_is_input_plus_all_incoming_messages", SP.shape_is(b.value, (1, n)) and SP.all_close(P(b.value), want))
+        ctx.ensure("marginalize_inputs_unmodified", b.unmodified)
+
+
 def _ms_dec_cfgs(tier):
     out = []
     for c in _h_cfgs(tier):
